@@ -438,7 +438,8 @@ def cid(name):
     return s
 
 class Emitter:
-    def __init__(s, mod, ub=True, globals_check=True, stubs=None):
+    def __init__(s, mod, ub=True, globals_check=True, stubs=None, uf_float=False):
+        s.uf_float = uf_float
         s.mod = mod; s.L = Layout(mod); s.ub = ub
         s.globals_check = globals_check
         s.stubs = stubs or {}
@@ -941,6 +942,8 @@ class Emitter:
             if r.k in ('float', 'double'):
                 cop = {'fadd': '+', 'fsub': '-', 'fmul': '*', 'fdiv': '/'}.get(op)
                 if cop is None: raise ValueError('frem')
+                if s.uf_float:
+                    o.append('  %s = VERIF_F%s(%s, %s);' % (d, op.upper() + ('32' if r.k == 'float' else '64'), a, b)); return
                 o.append('  %s = %s %s %s;' % (d, a, cop, b)); return
             bits = r.bits
             fl = I['flags']
@@ -1390,6 +1393,30 @@ uint8_t  nondet_bool(void) { return nondet_u8() & 1; }
 #define VERIF_PTRDIFF(a, b) ((uint64_t)(a) - (uint64_t)(b))
 #define VERIF_PTRCMP(a, op, b) ((uint64_t)(a) op (uint64_t)(b))
 #endif
+/* float arithmetic as uninterpreted functions (option --uf-float): sound abstraction for equality / 2-safety obligations */
+#ifdef __CPROVER__
+float __CPROVER_uninterpreted_fadd32(float, float); float __CPROVER_uninterpreted_fsub32(float, float);
+float __CPROVER_uninterpreted_fmul32(float, float); float __CPROVER_uninterpreted_fdiv32(float, float);
+double __CPROVER_uninterpreted_fadd64(double, double); double __CPROVER_uninterpreted_fsub64(double, double);
+double __CPROVER_uninterpreted_fmul64(double, double); double __CPROVER_uninterpreted_fdiv64(double, double);
+#define VERIF_FFADD32(a, b) __CPROVER_uninterpreted_fadd32(a, b)
+#define VERIF_FFSUB32(a, b) __CPROVER_uninterpreted_fsub32(a, b)
+#define VERIF_FFMUL32(a, b) __CPROVER_uninterpreted_fmul32(a, b)
+#define VERIF_FFDIV32(a, b) __CPROVER_uninterpreted_fdiv32(a, b)
+#define VERIF_FFADD64(a, b) __CPROVER_uninterpreted_fadd64(a, b)
+#define VERIF_FFSUB64(a, b) __CPROVER_uninterpreted_fsub64(a, b)
+#define VERIF_FFMUL64(a, b) __CPROVER_uninterpreted_fmul64(a, b)
+#define VERIF_FFDIV64(a, b) __CPROVER_uninterpreted_fdiv64(a, b)
+#else
+#define VERIF_FFADD32(a, b) ((a) + (b))
+#define VERIF_FFSUB32(a, b) ((a) - (b))
+#define VERIF_FFMUL32(a, b) ((a) * (b))
+#define VERIF_FFDIV32(a, b) ((a) / (b))
+#define VERIF_FFADD64(a, b) ((a) + (b))
+#define VERIF_FFSUB64(a, b) ((a) - (b))
+#define VERIF_FFMUL64(a, b) ((a) * (b))
+#define VERIF_FFDIV64(a, b) ((a) / (b))
+#endif
 static inline float bc_i2f(uint32_t x) { float f; memcpy(&f, &x, 4); return f; }
 static inline uint32_t bc_f2i(float f) { uint32_t x; memcpy(&x, &f, 4); return x; }
 static inline double bc_i2d(uint64_t x) { double f; memcpy(&f, &x, 8); return f; }
@@ -1503,6 +1530,7 @@ def main():
     ap.add_argument('ll'); ap.add_argument('-o', required=True)
     ap.add_argument('--entry', required=True, help='harness entry function (extern "C")')
     ap.add_argument('--no-ub', action='store_true')
+    ap.add_argument('--uf-float', action='store_true', help='float +,-,*,/ as uninterpreted functions')
     ap.add_argument('--stub', action='append', default=[], help='name=havoc|unreachable|noop (mangled name)')
     ap.add_argument('--info', default=None, help='write json with emitted functions etc.')
     ap.add_argument('--list-reachable', action='store_true', help='only print the defined functions reachable from the entry')
@@ -1525,7 +1553,7 @@ def main():
             saved[k] = mod.funcs['@' + k].blocks
             mod.funcs['@' + k].blocks = []
     kf, kg, kd = reachable(mod, [entry])
-    em = Emitter(mod, ub=not a.no_ub, stubs=stubs)
+    em = Emitter(mod, ub=not a.no_ub, stubs=stubs, uf_float=a.uf_float)
     em.referenced_decls = kd
     txt = em.emit_module(kf, kg, a.entry)
     open(a.o, 'w').write(txt)
